@@ -6,7 +6,7 @@ import mpmath as mp
 import numpy as np
 from hypothesis import strategies as st
 
-from ..core import Facet, Violation
+from ..core import Facet, Violation, attributed
 from ..gen import logfloat
 from ..ref import kin, units
 
@@ -529,7 +529,9 @@ def check_graph(case):
         graph = G.elastic(origin)
     else:
         graph = getattr(G, "elastic_" + target)(origin)
-    out = da.transform_coords(target, graph=graph, rename_dims=False, keep_inputs=True)
+    with attributed(f"transform_coords({target!r}) over graph.tof.{'elastic' if case['factory'] == 'elastic' else 'elastic_' + target}({origin!r}) "
+                    f"on data with coords {sorted(coords)}"):
+        out = da.transform_coords(target, graph=graph, rename_dims=False, keep_inputs=True)
     got = out.coords[target]
     fn, out_unit = _ref_chain(origin, target)
     if out_unit == "1/LAM":
